@@ -102,4 +102,16 @@ example :
     Namespaces.parseNs G 5 0 [] = [(0, [1, 2]), (1, []), (2, [1])] := by decide
 
 
+/-- the list of namespaces every validation pass and generator walks (`flattenNamespaces`): each namespace once, and every namespace after all the
+    namespaces it refers to — for every acyclic graph of references -/
+theorem namespaces_are_listed_imports_first (refs : Nat → List Nat) (rank : Nat → Nat) (hr : ∀ n, ∀ i ∈ refs n, rank i < rank n)
+    (fuel root : Nat) (hf : rank root < fuel) :
+    Namespaces.Ordered refs (Namespaces.flatten refs fuel root []) ∧ root ∈ Namespaces.flatten refs fuel root [] :=
+  Namespaces.flatten_ordered refs rank hr fuel root hf
+
+example :
+    let refs : Nat → List Nat := fun n => if n = 0 then [1, 2] else if n = 2 then [1] else []
+    Namespaces.flatten refs 5 0 [] = [1, 2, 0] := by decide
+
+
 end Yardl.C18
